@@ -25,10 +25,11 @@ type transInfo struct {
 	callers     map[*ssa.Function][]ssa.CallInstruction // static call sites (Call only; not go/defer) in library code
 	deepCache   map[*ssa.Function][]ssa.Instruction
 	alias       map[*ssa.Function]string // a baseline function that was re-signed (method <-> function): its baseline name
+	byOldName   map[string]*ssa.Function // baseline name -> the function that carries it now (renamed / re-signed)
 }
 
 func (p *Prog) initTransparency() {
-	ti := &transInfo{alias: map[*ssa.Function]string{}, transparent: map[*ssa.Function]bool{}, callers: map[*ssa.Function][]ssa.CallInstruction{}, deepCache: map[*ssa.Function][]ssa.Instruction{}}
+	ti := &transInfo{byOldName: map[string]*ssa.Function{}, alias: map[*ssa.Function]string{}, transparent: map[*ssa.Function]bool{}, callers: map[*ssa.Function][]ssa.CallInstruction{}, deepCache: map[*ssa.Function][]ssa.Instruction{}}
 	p.ti = ti
 	lib := p.LibFuncs()
 	for _, f := range lib {
@@ -62,12 +63,57 @@ func (p *Prog) initTransparency() {
 		}
 		invBase[pkg+"."+baseName(n)] = true
 	}
+	// renamed baseline functions: a baseline name that is gone, and exactly one new function of the same package with
+	// the same flattened signature (receiver counted as first parameter)
+	pkgOf := func(n string) string {
+		pkg := strings.TrimPrefix(strings.TrimPrefix(n, "("), "*")
+		if i := strings.Index(pkg, ")"); i >= 0 {
+			pkg = pkg[:i]
+		}
+		if i := strings.LastIndex(pkg, "."); i >= 0 {
+			pkg = pkg[:i]
+		}
+		return pkg
+	}
+	{
+		var fresh []*ssa.Function
+		for _, f := range lib {
+			if f.Parent() != nil || f.Synthetic != "" || inventory[short(f.String())] {
+				continue
+			}
+			fresh = append(fresh, f)
+		}
+		claimed := map[*ssa.Function][]string{}
+		for n, sig := range sigInventory {
+			if p.fnIdx[n] != nil {
+				continue
+			}
+			var cs []*ssa.Function
+			for _, f := range fresh {
+				if short(fnPkgPath(f)) == pkgOf(n) && flatSig(f) == sig {
+					cs = append(cs, f)
+				}
+			}
+			if len(cs) == 1 {
+				claimed[cs[0]] = append(claimed[cs[0]], n)
+			}
+		}
+		for f, ns := range claimed {
+			if len(ns) == 1 {
+				ti.alias[f] = ns[0]
+				ti.byOldName[ns[0]] = f
+			}
+		}
+	}
 	cand := map[*ssa.Function]bool{}
 	for _, f := range lib {
 		if f.Parent() != nil || f.Synthetic != "" {
 			continue
 		}
 		if inventory[short(f.String())] {
+			continue
+		}
+		if _, renamed := ti.alias[f]; renamed {
 			continue
 		}
 		if invBase[short(fnPkgPath(f))+"."+f.Name()] {
@@ -90,6 +136,7 @@ func (p *Prog) initTransparency() {
 			}
 			if len(old) == 1 {
 				ti.alias[f] = old[0]
+				ti.byOldName[old[0]] = f
 			}
 			continue
 		}
